@@ -520,6 +520,8 @@ H("streams_illegal_ordered_read_native", ["C11", "C06"], "replay-only", "connect
   [("x", "u8")], 4, [], ["RecvStream::read", "Chunks::new", "Assembler::ensure_ordering"], "native replay body of E2 query e2_chunks_new_keeps_stream_on_error; demonstration for finding 18")
 H("streams_reset_after_fin_acked_native", ["C11"], "replay-only", "connection::streams::reset_after_fin_acked_native",
   [("x", "u8")], 4, [], ["SendStream::reset", "StreamsState::received_ack_of", "StreamsState::write_stream_frames"], "native replay body of E2 query e2_sendstream_reset_legality")
+H("path_sent_forgotten_native", ["C12"], "replay-only", "connection::paths::sent_forgotten_native",
+  [("n", "u16"), ("size", "u16")], 4, [], ["PathData::sent", "PacketSpace::sent", "PacketSpace::take", "PathData::remove_in_flight"], "native replay body of E2 query e2_pathdata_sent_forgotten_leaves_in_flight")
 H("space_sent_tail_native", ["C03", "C12"], "replay-only", "connection::spaces::sent_tail_native",
   [("n", "u16")], 4, [], ["PacketSpace::sent", "PacketSpace::take"], "native replay body of E2 query e2_packet_space_sent_tail_counter")
 H("packet_truncated_prefixes_native", ["C04", "C03"], "replay-only", "packet::truncated_prefixes_native",
